@@ -1,20 +1,20 @@
 package main
 
-// Model of the protobuf runtime behind remote.ProtoSerializer. The three
-// methods of ProtoSerializer are thin wrappers around proto.Marshal,
-// proto.MessageName, protoregistry.GlobalTypes.FindMessageByName and
-// proto.Unmarshal, all of which work by reflection and cannot be executed by
-// the SSA executor. The model: a message is serialised by its own generated
-// MarshalVT, its type name is <go package name>.<type name> (which is what the
-// .proto files of this module declare), and Deserialize looks the name up among
-// the module's types that have MarshalVT/UnmarshalVT, allocates one and runs its
-// generated UnmarshalVT. An unknown name or a value that is not such a message
-// behaves as natively (error / failed type assertion).
+// Model of the protobuf runtime behind remote.ProtoSerializer. ProtoSerializer's own three methods are executed
+// as written; what they call - proto.Marshal, proto.MessageName, protoregistry.GlobalTypes.FindMessageByName,
+// MessageType.New().Interface(), proto.Unmarshal - works by reflection and cannot be executed by the SSA executor.
+// The model: a message is serialised by its own generated MarshalVT, its name is <go package name>.<type name>
+// (which is what the .proto files of this module declare), FindMessageByName looks the name up among the module's
+// types that have MarshalVT/UnmarshalVT, New().Interface() allocates one, Unmarshal runs its generated
+// UnmarshalVT. proto.Marshal and proto.Unmarshal reject a proto3 string field that is not valid UTF-8, which
+// the generated VT code does not check: the model adds that check for concrete strings. A value that is not a
+// proto.Message fails ProtoSerializer's own type assertion, as natively.
 
 import (
 	"go/types"
 	"sort"
 	"strings"
+	"unicode/utf8"
 
 	"golang.org/x/tools/go/ssa"
 )
@@ -76,51 +76,6 @@ func (e *Exec) protoMsgType(v Value) (*types.Named, iface) {
 	return n, i
 }
 
-func init() {
-	ps := "(" + modPath + "/remote.ProtoSerializer)."
-	notMsg := func(fr *frame) {
-		fr.rtPanic("interface conversion: value is not a proto.Message (protobuf runtime model)")
-	}
-	intrinsics[ps+"TypeName"] = func(e *Exec, fr *frame, a []Value) Value {
-		n, _ := e.protoMsgType(a[len(a)-1])
-		if n == nil {
-			notMsg(fr)
-		}
-		return n.Obj().Pkg().Name() + "." + n.Obj().Name()
-	}
-	intrinsics[ps+"Serialize"] = func(e *Exec, fr *frame, a []Value) Value {
-		n, i := e.protoMsgType(a[len(a)-1])
-		if n == nil {
-			notMsg(fr)
-		}
-		f := e.w.prog.LookupMethod(i.t, nil, "MarshalVT")
-		if f == nil {
-			e.unsupported("no MarshalVT for %s", i.t)
-		}
-		return e.call(fr, 0, f, []Value{i.v})
-	}
-	intrinsics[ps+"Deserialize"] = func(e *Exec, fr *frame, a []Value) Value {
-		data, tname := a[len(a)-2], a[len(a)-1]
-		name, ok := tname.(string)
-		if !ok {
-			e.unsupported("ProtoSerializer.Deserialize with a symbolic type name")
-		}
-		n := e.w.protoTypes()[name]
-		if n == nil {
-			return tuple{iface{}, opaqueErr(e, fr, []Value{"proto: not found: " + name})}
-		}
-		pt := types.NewPointer(n)
-		f := e.w.prog.LookupMethod(pt, nil, "UnmarshalVT")
-		if f == nil {
-			e.unsupported("no UnmarshalVT for %s", pt)
-		}
-		cell := new(Value)
-		*cell = e.zero(n)
-		err := e.call(fr, 0, f, []Value{cell, data})
-		return tuple{iface{t: pt, v: cell}, err}
-	}
-}
-
 // ---- the same runtime reached directly (protoregistry / proto), not through ProtoSerializer ----
 //
 // Code that looks a message type up itself (protoregistry.GlobalTypes.FindMessageByName), allocates it
@@ -156,6 +111,45 @@ func protoTagMethod(tag *protoTag, v Value, name string) hostFn {
 	}
 }
 
+// protoBadUTF8 reports whether a string field reachable from the message value (through nested messages and
+// repeated fields of the module's own message types) is a concrete string that is not valid UTF-8.
+func (e *Exec) protoBadUTF8(t types.Type, v Value, depth int) bool {
+	if depth > 6 || v == nil {
+		return false
+	}
+	switch tt := t.Underlying().(type) {
+	case *types.Basic:
+		if tt.Kind() == types.String {
+			if s, ok := v.(string); ok {
+				return !utf8.ValidString(s)
+			}
+		}
+	case *types.Pointer:
+		if cell, ok := v.(*Value); ok && cell != nil {
+			if n, isNamed := tt.Elem().(*types.Named); isNamed && n.Obj().Pkg() != nil && strings.HasPrefix(n.Obj().Pkg().Path(), e.w.modPath) {
+				return e.protoBadUTF8(tt.Elem(), *cell, depth+1)
+			}
+		}
+	case *types.Struct:
+		if sv, ok := v.(structV); ok {
+			for i := 0; i < tt.NumFields() && i < len(sv); i++ {
+				if tt.Field(i).Exported() && e.protoBadUTF8(tt.Field(i).Type(), sv[i], depth+1) {
+					return true
+				}
+			}
+		}
+	case *types.Slice:
+		if sl, ok := v.([]Value); ok {
+			for _, x := range sl {
+				if e.protoBadUTF8(tt.Elem(), x, depth+1) {
+					return true
+				}
+			}
+		}
+	}
+	return false
+}
+
 type protoMsgVal struct {
 	n    *types.Named
 	cell *Value
@@ -182,7 +176,11 @@ func init() {
 		if f == nil {
 			e.unsupported("no UnmarshalVT for %s", i.t)
 		}
-		return e.call(fr, 0, f, []Value{i.v, a[0]})
+		err := e.call(fr, 0, f, []Value{i.v, a[0]})
+		if ei, ok := err.(iface); ok && ei.t == nil && e.protoBadUTF8(i.t, i.v, 0) {
+			return opaqueErr(e, fr, []Value{"proto: string field contains invalid UTF-8"})
+		}
+		return err
 	}
 	intrinsics["google.golang.org/protobuf/proto.Marshal"] = func(e *Exec, fr *frame, a []Value) Value {
 		n, i := e.protoMsgType(a[0])
@@ -192,6 +190,9 @@ func init() {
 		f := e.w.prog.LookupMethod(i.t, nil, "MarshalVT")
 		if f == nil {
 			e.unsupported("no MarshalVT for %s", i.t)
+		}
+		if e.protoBadUTF8(i.t, i.v, 0) {
+			return tuple{[]Value(nil), opaqueErr(e, fr, []Value{"proto: string field contains invalid UTF-8"})}
 		}
 		return e.call(fr, 0, f, []Value{i.v})
 	}
